@@ -27,6 +27,7 @@ func round2Hooks(c *Ctx, id string) {
 	round3cHooks(c, id)
 	round3dHooks(c, id)
 	round3eHooks(c, id)
+	round4Hooks(c, id)
 	switch id {
 	case "C01":
 		sharedDeleteExact(c, "C01.g shared-delete-exact")
